@@ -32,7 +32,10 @@ ASSUMPTIONS = [
 
 
 def respell(table, mode):
-    """the reverse flag spelled as bool (0), int (1) or numpy bool (2)"""
+    """the reverse flag spelled as bool (0), int (1) or numpy bool (2); mode 3: every link triple and every (left, right)
+    pair as a list instead of a tuple (what a table looks like after a JSON / YAML round trip)"""
+    if mode == 3:
+        return {f: {A: [None if l is None else [l[0], l[1], l[2]] for l in pair] for A, pair in ax.items()} for f, ax in table.items()}
     conv = {0: bool, 1: int, 2: np.bool_}[mode]
     return {f: {A: tuple(None if l is None else (l[0], l[1], conv(l[2])) for l in pair) for A, pair in ax.items()} for f, ax in table.items()}
 
@@ -83,7 +86,7 @@ def check(rec, K, table, axes=("X", "Y"), sub="table", variant=None, labels=None
     if any(not present(f) and not any(l for pair in ax.values() for l in pair) for f, ax in table.items() if isinstance(f, int)):
         rec.counters["skipped:link-free row of an absent face (not classified)"] += 1
         return
-    want = predicate(K, table, axes, labels) and variant in (None, "flags-int", "flags-npbool")
+    want = predicate(K, table, axes, labels) and variant in (None, "flags-int", "flags-npbool", "links-as-lists")
     nlinks = sum(1 for f in table for A in table[f] for l in table[f][A] if l)
     rec.case((K, tab_json(table), axes, variant, None if labels is None else tuple(labels)), nlinks > 0, sample=case if nlinks >= 2 else None)
     rec.outcomes["expected-accept" if want else "expected-reject"] += 1
@@ -94,8 +97,8 @@ def check(rec, K, table, axes=("X", "Y"), sub="table", variant=None, labels=None
             make(K, table, axes, facedim="tile")
         elif variant in ("scalar-coordinate", "data-variable"):
             make(K, table, axes, ds_variant=variant)
-        elif variant in ("flags-int", "flags-npbool"):
-            make(K, respell(table, 1 if variant == "flags-int" else 2), axes)
+        elif variant in ("flags-int", "flags-npbool", "links-as-lists"):
+            make(K, respell(table, {"flags-int": 1, "flags-npbool": 2, "links-as-lists": 3}[variant]), axes)
         else:
             make(K, table, axes, labels=labels)
         ok = True
@@ -103,7 +106,7 @@ def check(rec, K, table, axes=("X", "Y"), sub="table", variant=None, labels=None
         ok = False
         err = e
     if ok and not want:
-        cls = "non-reciprocal-accepted" if variant in (None, "flags-int", "flags-npbool") else f"{variant}-accepted"
+        cls = "non-reciprocal-accepted" if variant in (None, "flags-int", "flags-npbool", "links-as-lists") else f"{variant}-accepted"
         rec.violation(sub, cls, case, "raise", "Grid returned")
     elif not ok and want:
         rec.violation(sub, "reciprocal-rejected:" + exc_sig(err), case, "Grid", f"{type(err).__name__}: {err}"[:200])
@@ -214,9 +217,10 @@ def run_shard(shard, tier, seed, rec):
         for K, t in structured_tables():
             check(rec, K, t, sub="flag-spelling", variant="flags-int")
             check(rec, K, t, sub="flag-spelling", variant="flags-npbool")
+            check(rec, K, t, sub="flag-spelling", variant="links-as-lists")
         for bi, (K, b) in enumerate(base_tables(tier)):
             for ei, t in enumerate(edits(b, K)):
-                check(rec, K, t, sub="flag-spelling", variant=("flags-int", "flags-npbool")[(bi + ei) % 2])
+                check(rec, K, t, sub="flag-spelling", variant=("flags-int", "flags-npbool", "links-as-lists")[(bi + ei) % 3])
         # a surplus row keyed by a face the dataset does not have, holding any one link (to any face, reciprocated or not)
         for K, b in base_tables(tier):
             fb = full(b, K)
